@@ -8,7 +8,7 @@ import time
 import multiprocessing as mp
 import tempfile
 import hashlib
-import z3
+import zz as z3
 
 HERE = os.path.dirname(os.path.abspath(__file__))
 ROOT = os.path.dirname(HERE)
@@ -22,6 +22,8 @@ import pike
 REPO = os.environ.get('VERIF_REPO', '/repo')
 MOD = 'github.com/coreruleset/crs-toolchain/v2'
 GOENV = dict(os.environ, GOFLAGS='-mod=mod', GOPROXY='off', GOSUMDB='off', GOTOOLCHAIN='local')
+# library packages whose real Go bodies are dumped as a fallback for calls without a Python model
+STDLIB_FALLBACK = 'strings,bytes,unicode/utf8,unicode,strconv,path,regexp,sort,slices,maps,errors,path/filepath'
 OUT = os.path.join(ROOT, 'out')
 os.makedirs(OUT, exist_ok=True)
 
@@ -31,7 +33,7 @@ def build_ssa(overlay_dir=None, tag=''):
     overlay_dir = overlay_dir or os.path.join(ROOT, 'harness')
     out = os.path.join(OUT, 'ssa%s.json' % tag)
     t = time.time()
-    r = subprocess.run([os.path.join(ROOT, '.build', 'ssadump'), '-repo', REPO, '-overlay', overlay_dir, '-out', out],
+    r = subprocess.run([os.path.join(ROOT, '.build', 'ssadump'), '-repo', REPO, '-overlay', overlay_dir, '-out', out, '-extra', STDLIB_FALLBACK],
                        capture_output=True, text=True, env=GOENV)
     if r.returncode != 0:
         raise RuntimeError('ssadump failed (does /repo still compile with the harness overlay?):\n' + r.stderr[-4000:])
@@ -137,7 +139,8 @@ def solve(ctx, cond, timeout_ms, extra=()):
 
 
 def run_harness(ssa_path, fname, params=None, fixlen=None, unwind=10, unwind_by_func=None, timeout_ms=120000,
-                inits=('regex',), hooks=None, exclude=None, want_reach=True, max_models=1, dump_smt=None):
+                inits=('regex',), hooks=None, exclude=None, want_reach=True, max_models=1, dump_smt=None,
+                terminal_obligations=('fatal', 'exit', 'logpanic')):
     """Execute harness `fname` (short name inside package path 'pkg') and decide all obligations.
     exclude: optional python callable(ctx) -> list of z3 constraints conjoined to every violation query
              (known-finding signatures)."""
@@ -169,23 +172,41 @@ def run_harness(ssa_path, fname, params=None, fixlen=None, unwind=10, unwind_by_
     for kind, g, info in ctx.terminals:
         if kind == 'panic':
             obls.append(gobmc.Obligation('panic', 'explicit panic: %s' % (info.get('value'),), g, info.get('pos')))
-    excl = exclude(ctx) if exclude else []
+        elif kind in terminal_obligations:
+            obls.append(gobmc.Obligation('panic', 'process ends here (%s) although the harness expects a normal return' % kind, g, info.get('pos')))
     solver_s = 0.0
     nq = 0
+    only = hooks.get('only_obligations') if hooks else None
     for ob in obls:
         entry = {'kind': ob.kind, 'name': ob.name, 'pos': ob.pos}
+        if only and ob.kind in ('assert', 'panic') and not only(ob):
+            continue
         if ob.kind == 'reach':
             if not want_reach:
                 continue
             r, s, dt = solve(ctx, ob.cond, timeout_ms)
             entry['result'] = str(r)   # sat expected
         else:
-            r, s, dt = solve(ctx, ob.cond, timeout_ms, excl if ob.kind in ('panic', 'assert') else ())
+            sigs = exclude(ctx, ob) if (exclude and ob.kind in ('panic', 'assert')) else {}
+            sigs = {k: v for k, v in sigs.items() if v is not False}
+            r, s, dt = solve(ctx, ob.cond, timeout_ms, [z3.Not(v) for v in sigs.values()])
             entry['result'] = str(r)
             if r == z3.sat:
                 vals, obs = model_values(ctx, s.model())
                 entry['model'] = vals
                 entry['observed'] = obs
+            elif r == z3.unsat and sigs:
+                # nothing outside the known classes; look for a witness inside each known class
+                entry['known'] = []
+                for kid, sig in sigs.items():
+                    r2, s2, dt2 = solve(ctx, ob.cond, timeout_ms, [sig])
+                    dt += dt2
+                    nq += 1
+                    if r2 == z3.sat:
+                        vals, obs = model_values(ctx, s2.model())
+                        entry['known'].append({'id': kid, 'model': vals, 'observed': obs})
+                    elif r2 == z3.unknown:
+                        entry['known'].append({'id': kid, 'unknown': True})
             if dump_smt and nq < 3:
                 with open('%s.%d.smt2' % (dump_smt, nq), 'w') as f:
                     f.write(s.to_smt2())
@@ -240,4 +261,11 @@ def summarize(results):
                                  'model': o.get('model'), 'observed': o.get('observed')})
             elif o['result'] == 'unknown':
                 inc.append({'harness': r['harness'], 'params': r.get('params'), 'why': 'solver unknown/timeout on %s' % o['name']})
+            for k in o.get('known', []):
+                if k.get('unknown'):
+                    inc.append({'harness': r['harness'], 'params': r.get('params'), 'why': 'solver unknown on known-finding class %s' % k['id']})
+                else:
+                    counts['known_sat'] = counts.get('known_sat', 0) + 1
+                    viol.append({'harness': r['harness'], 'params': r.get('params'), 'fixlen': r.get('fixlen'), 'kind': o['kind'], 'name': o['name'], 'pos': o['pos'],
+                                 'model': k['model'], 'observed': k.get('observed'), 'known_id': k['id']})
     return counts, viol, inc
